@@ -26,7 +26,8 @@ LEVEL_TEXT = ('Runtime check on the real code: (1) Linen modules whose params / 
               'oracle; the same programs are run with unboxed variables and must agree. (2) get_partition_spec of both APIs on all name '
               'tuples of length <= 3. (3) logical_to_mesh_axes on ALL rule lists of length <= 4 over 3 logical names x (3 mesh axes + None) '
               'against all logical-axis tuples of length <= 3 over those names + None + one unknown name, versus a 15-line reference. '
-              'Part (3) and the unit-level add/remove inverse laws are exhaustive in their stated bounds; the transform part is exploration.')
+              'Part (3) and the unit-level add/remove inverse laws are exhaustive in their stated bounds; the transform part is exploration.'
+              ' Round f: Variables bridged from LogicallyPartitioned under logical_axis_rules.')
 LEVEL_NOTE = ('Trusts ref_insert / ref_remove / ref_l2m in vf/props/c19.py and the JAX compat aliases. Single device: sharding constraints '
               'applied by unbox() are not observable and not checked.')
 TECHNIQUE = ('runtime monitoring: alignment invariant on returned variable trees + assert-at-hook on Partitioned.add_axis/remove_axis and '
